@@ -830,8 +830,13 @@ class C18(Prop):
             nuc.base_energy_cost = intd(t[2])
         return "ok"
 
+    idle_calls = 0
+
     def _idle_provider(self):
+        """the provider a live Nucleus is constructed with; every call line assigns its own provider to the public
+        attribute, so this one must never be called"""
         LLMResponse = self.LLMResponse
+        prop = self
 
         class Idle:
             name = "idle"
@@ -840,7 +845,12 @@ class C18(Prop):
                 return True
 
             def complete(self, prompt, config=None):
+                prop.idle_calls += 1
                 return LLMResponse("idle", "m", 1, 1.0)
+
+            def complete_with_tools(self, prompt, tools=None, config=None):
+                prop.idle_calls += 1
+                return LLMResponse("idle", "m", 1, 1.0), None
         return Idle()
 
     def _tools(self, t, st=None):
@@ -965,6 +975,7 @@ class C18(Prop):
         else:
             mito = Mito()
         provider = WithTools() if hapi else Base()
+        idle0 = self.idle_calls
         if st is None:
             nuc = self.nu.Nucleus(provider=provider)
         else:
@@ -980,7 +991,8 @@ class C18(Prop):
         log = "[" + ",".join(f"{view(x.prompt)}:{getattr(x.response, 'rid', '?')}" for x in nuc.transcription_log) + "]"
         es = "[" + ",".join(f"{k}{a}:{b}" for (k, a, b) in evs) + "]"
         mine = exc is not None and (isinstance(exc, AdvError) or any(exc is e for e in own))
-        info = {"kind": "tools", "mi": mi, "evs": evs, "res": res, "exc": None if mine else exc, "raised": exc}
+        info = {"kind": "tools", "mi": mi, "evs": evs, "res": res, "exc": None if mine else exc, "raised": exc,
+                "stale": ["provider"] * (self.idle_calls - idle0)}
         if exc is not None:
             r = "raise" if mine else f"raise:{type(exc).__name__}"
         else:
